@@ -120,3 +120,8 @@ pub proof fn axiom_array_of_seq<T, const N: usize>(s: Seq<T>)
     requires s.len() == N,
     ensures exists|a: [T; N]| a@ == s,
 { }
+/// TB-6: `==` on byte arrays (core::array PartialEq) is element-wise equality; vstd specifies the exec result as `eq_spec`
+#[verifier::external_body]
+pub broadcast proof fn axiom_u8_array_eq_spec<const N: usize>(a: [u8; N], b: [u8; N])
+    ensures #[trigger] vstd::std_specs::cmp::PartialEqSpec::eq_spec(&a, &b) == (a@ == b@),
+{ }
